@@ -302,6 +302,19 @@ func c10Errors() []c10Err {
 		io.ErrUnexpectedEOF, fmt.Errorf("backend dropped: %w", io.ErrUnexpectedEOF), &os.PathError{Op: "read", Path: "/q", Err: io.ErrUnexpectedEOF}, io.ErrClosedPipe, io.ErrShortWrite, os.ErrClosed, os.ErrExist, os.ErrInvalid, syscall.EIO, fmt.Errorf("offline: %w", syscall.EIO)} {
 		out = append(out, c10Err{fmt.Sprintf("other-%d", i), e, rfFailure, e.Error()})
 	}
+	// every errno of the platform: only "no such file" and the two permission errnos have a status of their own,
+	// any other one is a failure that carries its text (the bare values; the wrappers are exercised above)
+	for n := 1; n <= 133; n++ {
+		e := syscall.Errno(n)
+		if e == syscall.ENOENT || e == syscall.EACCES || e == syscall.EPERM {
+			continue
+		}
+		out = append(out, c10Err{fmt.Sprintf("errno-%d", n), e, rfFailure, e.Error()})
+	}
+	// a failure whose text happens to read like another outcome
+	for i, txt := range []string{"EOF", "end of file", "file does not exist", "permission denied", "no such file or directory", "OK", ""} {
+		out = append(out, c10Err{fmt.Sprintf("lookalike-text-%d", i), errors.New(txt), rfFailure, txt})
+	}
 	return out
 }
 
@@ -485,7 +498,10 @@ func c10Backward(u *vfUnit, part int) {
 		case rfEOF:
 			ok = cerr == io.EOF
 		case rfFailure:
-			ok = cerr != nil && (e.text == "" || strings.Contains(cerr.Error(), e.text))
+			// a failure stays a failure on the client's side, with its text (never one of the standard errors)
+			var se *StatusError
+			ok = errors.As(cerr, &se) && se.Code == rfFailure && (e.text == "" || strings.Contains(cerr.Error(), e.text)) &&
+				cerr != io.EOF && !errors.Is(cerr, os.ErrNotExist) && !errors.Is(cerr, os.ErrPermission)
 		default:
 			var se *StatusError
 			ok = errors.As(cerr, &se) && se.Code == e.code
